@@ -184,7 +184,7 @@ def settle(what, src, families, found, why, helper_ok, helper, answers_of, predi
         return cache[key] == answers[r]
     nomap = predict({f: None for f in families})
     rec = dx.reconstruct(what, runs, {f: list(range(len(families[f]))) for f in families}, found, matches,
-                         lambda r: answers[r] == nomap)
+                         lambda r: answers[r] == nomap, more=lambda rs: answers.update(answers_of(rs)))
     if missing:
         notes.append(PROBE_NOTE % (dx.FALLBACK_MARK, what + " " + ", ".join(missing), dx.comment_safe("; ".join(why)),
                                    len(runs)))
@@ -309,7 +309,8 @@ PROBE_NOTE = ("%s\n(* %s: the front end could not read the dispatch (%s).\n"
               "   The implementation was evaluated at %d candidate run numbers (every integer literal and integer constant of\n"
               "   the source file, each +-1, and 0, 1, u32::MAX-1, u32::MAX); at each one the parsed table whose COMPLETE content\n"
               "   reproduces the implementation's answer was identified.  ASSUMPTION: the dispatch is constant between\n"
-              "   consecutive candidates; the differential run (arm boundaries +-2 and a stride of runs) checks it.\n"
+              "   consecutive candidates with the same answer (a change between two candidates is located by bisection); the\n"
+              "   differential run (arm boundaries +-2 and a stride of runs) checks it.\n"
               "   Where the implementation has no map at all (every entry an error) a dispatch hidden behind another one's error\n"
               "   cannot be observed: a reconstructed dispatch says None there. *)\n")
 
